@@ -652,6 +652,14 @@ var classGens = []classGen{
 		}
 		g.emitH("pk-wrong-length", v, resize(k.pk, pkLens[g.j%len(pkLens)]), msg, sig, ctx, ref.MustReject)
 		g.emitH("sig-wrong-length", v, k.pk, msg, resize(sig, sigLens[g.j%len(sigLens)]), ctx, ref.MustReject)
+		// a signer that hashed the complete over-long (or truncated) key string
+		// into the challenge: the group equation holds for the first Size octets
+		// taken as the key, so only the length check stands in the way
+		for _, l := range []int{n + 1, n + 8, 2 * n, n - 1} {
+			pkL := resize(k.pk, l)
+			sigL := g.c.SignRaw(k.sk, pkL, mustDom(v, ctx), ref.PH(v, msg), nil, nil)
+			g.emitH("pk-wrong-length-hashed-as-given", v, pkL, msg, sigL, ctx, ref.MustReject)
+		}
 		if g.j%5 == 0 {
 			g.emitH("pk-wrong-length", v, nil, msg, sig, ctx, ref.MustReject)
 			g.emitH("sig-wrong-length", v, k.pk, msg, nil, ctx, ref.MustReject)
